@@ -14,11 +14,14 @@ for cxx in ('g++', 'clang++'):
         for std in ('c++17', 'c++20'):
             CONFIGS.append(_cfg(cxx, opt, std, san=True))
     CONFIGS.append(_cfg(cxx, 1, 'c++17', san=True))
+# a target-like variation: plain char unsigned (the default on ARM / PowerPC Linux)
+CONFIGS.append(dict(_cfg('g++', 2, 'c++17'), id='g++-O2-c++17-uchar', extra=['-funsigned-char']))
+CONFIGS.append(dict(_cfg('clang++', 2, 'c++20'), id='clang++-O2-c++20-uchar', extra=['-funsigned-char']))
 _BY = {c['id']: c for c in CONFIGS}
 
 QUICK = ['g++-O2-c++17', 'clang++-O2-c++20', 'g++-O0-c++17-abacus']
 QUICK_SAN = QUICK + ['clang++-O1-c++17-san']
-THOROUGH = [c['id'] for c in CONFIGS if not c['san']]
+THOROUGH = [c['id'] for c in CONFIGS if not c['san']]      # includes the -funsigned-char variations
 THOROUGH_SAN = [c['id'] for c in CONFIGS]
 
 CORE_E1 = {'module': 'MC_Core', 'instances': {'quick': [(8, 2, 3)], 'thorough': [(8, 2, 3), (10, 3, 3)]}}
@@ -28,7 +31,7 @@ PROPS = {
     'C02': {'e1': CORE_E1},
     'C03': {'e1': CORE_E1},
     'C04': {'e1': CORE_E1},
-    'C06': {'e1': CORE_E1},
+    'C06': {'e1': CORE_E1, 'quick_cfgs': QUICK + ['g++-O2-c++17-uchar']},
     'C13': {'e1': dict(CORE_E1, unary={'quick': [('sqrt_abacus', 0, 1048576, 61, 1), ('sqrt_std', 0, 1048576, 67, 0)],
                                         'thorough': [('sqrt_abacus', 0, 1048576, 1, 1), ('sqrt_std', 0, 1048576, 1, 0)]})},
     'C15': {'e1': CORE_E1},
